@@ -387,118 +387,151 @@ func run14(t Task) Result {
 	allocBound := uint64(4*fileSize + 1<<20)
 
 	for di := t.Lo; di < t.Hi; di++ {
-		d := ds[di]
-		res.Cases++
-		dir := filepath.Join(scratch(), "d14")
-		copyDir(base, dir)
-		_ = os.WriteFile(filepath.Join(dir, logs[d.Seg]), d.Data, 0o600)
-		// Known finding (DESIGN.md 5, D13): a V2 file whose first 8 bytes equal its base
-		// offset reads as a headerless V1 file; all-zero bytes are then valid V1 records.
-		tagV1 := ""
-		if d.Seg == 0 && len(d.Data) >= 8 && bytes.Equal(d.Data[:8], make([]byte, 8)) { // segment 0 has base offset 0
-			tagV1 = " [V2 header overwritten with the base offset: file reads as V1]"
-		}
-		fail := func(sig, format string, a ...any) {
-			res.Problems = append(res.Problems, Problem{Sig: sig + tagV1, Msg: fmt.Sprintf(format, a...), Damage: fmt.Sprintf("%s [base log: %s]", d.Desc, Shapes14[t.Shape].Name)})
-		}
-		// records overlapping the damaged bytes
-		damaged := map[int64]bool{}
-		if d.InPlace {
-			for _, p := range pubs {
-				if p.Seg == d.Seg && int64(d.Lo) < p.End && int64(d.Hi) > p.Pos {
-					damaged[p.Off] = true
-				}
-			}
-		}
-		var lg klevdb.Log
-		var oerr error
-		if p := safely(func() { lg, oerr = klevdb.Open(dir, o) }); p != "" {
-			fail("panic in Open", "Open panicked: %s", p)
-			continue
-		}
-		if oerr != nil {
-			res.Outcomes["open error"]++
-			continue
-		}
-		nerr, nok := 0, 0
-		for i, c := range calls {
-			var ms []klevdb.Message
-			var cerr error
-			a0 := allocBytes()
-			p := safely(func() { ms, cerr = c.f(lg) })
-			a1 := allocBytes()
-			if p != "" {
-				fail("panic in "+callKind(c.name), "%s panicked: %s", c.name, p)
+		// cold: the damaged directory is opened; warm (in-place damage only): the undamaged directory is
+		// opened and read through by every call of the sweep, then the bytes are overwritten underneath the
+		// open handle (mappings and descriptors stay as they are) and the sweep runs again on the same handle
+		for _, warm := range []bool{false, true} {
+			d := ds[di]
+			if warm && (!d.InPlace || d.Lo >= d.Hi) {
 				continue
 			}
-			if a1-a0 > allocBound {
-				fail("allocation in "+callKind(c.name), "%s allocated %d bytes on segment files of at most %d bytes", c.name, a1-a0, fileSize)
-			}
-			if cerr != nil {
-				nerr++
+			res.Cases++
+			dir := filepath.Join(scratch(), "d14")
+			copyDir(base, dir)
+			if !warm {
+				_ = os.WriteFile(filepath.Join(dir, logs[d.Seg]), d.Data, 0o600)
 			} else {
-				nok++
+				d.Desc += " [overwritten underneath an open handle that had read everything]"
 			}
-			for _, m := range ms {
-				if m.Offset < 0 || int(m.Offset) >= len(pubs) || !sameMsg(m, pubs[m.Offset]) {
-					fail("wrong data from "+callKind(c.name), "%s returned {off %d t %d key %q value %q} which differs from what was published at that offset", c.name, m.Offset, m.Time.UnixMicro(), m.Key, m.Value)
-					break
+			// Known finding (DESIGN.md 5, D13): a V2 file whose first 8 bytes equal its base
+			// offset reads as a headerless V1 file; all-zero bytes are then valid V1 records.
+			tagV1 := ""
+			if d.Seg == 0 && len(d.Data) >= 8 && bytes.Equal(d.Data[:8], make([]byte, 8)) { // segment 0 has base offset 0
+				tagV1 = " [V2 header overwritten with the base offset: file reads as V1]"
+			}
+			fail := func(sig, format string, a ...any) {
+				res.Problems = append(res.Problems, Problem{Sig: sig + tagV1, Msg: fmt.Sprintf(format, a...), Damage: fmt.Sprintf("%s [base log: %s]", d.Desc, Shapes14[t.Shape].Name)})
+			}
+			// records overlapping the damaged bytes
+			damaged := map[int64]bool{}
+			if d.InPlace {
+				for _, p := range pubs {
+					if p.Seg == d.Seg && int64(d.Lo) < p.End && int64(d.Hi) > p.Pos {
+						damaged[p.Off] = true
+					}
 				}
 			}
-			if !d.InPlace || len(ref[i].offs) == 0 {
+			var lg klevdb.Log
+			var oerr error
+			if p := safely(func() { lg, oerr = klevdb.Open(dir, o) }); p != "" {
+				fail("panic in Open", "Open panicked: %s", p)
 				continue
 			}
-			hits, other := false, true
-			for _, off := range ref[i].offs {
-				if damaged[off] {
-					hits = true
+			if oerr != nil {
+				if warm {
+					return Result{HarnessErr: "open of the undamaged copy failed: " + oerr.Error()}
 				}
-				if pubs[off].Seg == d.Seg {
-					other = false
+				res.Outcomes["open error"]++
+				continue
+			}
+			if warm {
+				for _, c := range calls {
+					safely(func() { _, _ = c.f(lg) })
+				}
+				f, err := os.OpenFile(filepath.Join(dir, logs[d.Seg]), os.O_WRONLY, 0)
+				if err == nil {
+					_, err = f.WriteAt(d.Data[d.Lo:d.Hi], int64(d.Lo))
+					_ = f.Close()
+				}
+				if err != nil {
+					_ = lg.Close()
+					return Result{HarnessErr: "overwriting in place failed: " + err.Error()}
 				}
 			}
-			if hits && cerr == nil {
-				fail("no error from "+callKind(c.name)+" over an overwritten record", "%s succeeded (%d messages) although its answer %v includes an overwritten record %v", c.name, len(ms), ref[i].offs, keysOf(damaged))
-			}
-			if other {
-				same := cerr == nil && len(ms) == len(ref[i].offs)
-				for j := 0; same && j < len(ms); j++ {
-					same = ms[j].Offset == ref[i].offs[j]
+			nerr, nok := 0, 0
+			for i, c := range calls {
+				var ms []klevdb.Message
+				var cerr error
+				a0 := allocBytes()
+				p := safely(func() { ms, cerr = c.f(lg) })
+				a1 := allocBytes()
+				if p != "" {
+					fail("panic in "+callKind(c.name), "%s panicked: %s", c.name, p)
+					continue
 				}
-				if !same {
-					tag := ""
-					if strings.HasPrefix(c.name, "GetByTime(") && len(ref[i].offs) == 1 && pubs[ref[i].offs[0]].Seg < d.Seg {
-						// Known finding (DESIGN.md 5, D20): the segment walk goes from the newest segment
-						// to the oldest and reads the first message of a newer segment, which has the
-						// same time (as has every message in between), before it finds the older answer
-						var first *pub
-						for k := range pubs {
-							if pubs[k].Seg == d.Seg {
-								first = &pubs[k]
-								break
+				if a1-a0 > allocBound {
+					fail("allocation in "+callKind(c.name), "%s allocated %d bytes on segment files of at most %d bytes", c.name, a1-a0, fileSize)
+				}
+				if cerr != nil {
+					nerr++
+				} else {
+					nok++
+				}
+				for _, m := range ms {
+					if m.Offset < 0 || int(m.Offset) >= len(pubs) || !sameMsg(m, pubs[m.Offset]) {
+						fail("wrong data from "+callKind(c.name), "%s returned {off %d t %d key %q value %q} which differs from what was published at that offset", c.name, m.Offset, m.Time.UnixMicro(), m.Key, m.Value)
+						break
+					}
+				}
+				if !d.InPlace || len(ref[i].offs) == 0 {
+					continue
+				}
+				hits, other := false, true
+				for _, off := range ref[i].offs {
+					if damaged[off] {
+						hits = true
+					}
+					if pubs[off].Seg == d.Seg {
+						other = false
+					}
+				}
+				if hits && cerr == nil {
+					fail("no error from "+callKind(c.name)+" over an overwritten record", "%s succeeded (%d messages) although its answer %v includes an overwritten record %v", c.name, len(ms), ref[i].offs, keysOf(damaged))
+				}
+				if other {
+					same := cerr == nil && len(ms) == len(ref[i].offs)
+					for j := 0; same && j < len(ms); j++ {
+						same = ms[j].Offset == ref[i].offs[j]
+					}
+					if !same {
+						tag := ""
+						if strings.HasPrefix(c.name, "GetByTime(") && len(ref[i].offs) == 1 && pubs[ref[i].offs[0]].Seg < d.Seg {
+							// Known finding (DESIGN.md 5, D20): the segment walk goes from the newest segment
+							// to the oldest and reads the first message of a newer segment, which has the
+							// same time (as has every message in between), before it finds the older answer
+							var first *pub
+							for k := range pubs {
+								if pubs[k].Seg == d.Seg {
+									first = &pubs[k]
+									break
+								}
+							}
+							if first != nil && first.T == pubs[ref[i].offs[0]].T {
+								tag = " [GetByTime answer has the same time as the first message of the damaged newer segment]"
 							}
 						}
-						if first != nil && first.T == pubs[ref[i].offs[0]].T {
-							tag = " [GetByTime answer has the same time as the first message of the damaged newer segment]"
-						}
-					}
-					if c.startSeg >= 0 && c.startSeg == d.Seg {
-						// Known finding (DESIGN.md 5, D14): the scan reads the candidates of the
-						// key's hash that are stored before the start offset in the start segment
-						// (only when the damage is in one of those candidates or in the file header)
-						for _, pb := range pubs {
-							if pb.Seg == d.Seg && string(pb.Key) == c.key && (damaged[pb.Off] || d.Lo < 8) {
-								tag = " [ConsumeByKey cursor starts in the damaged segment, which holds messages of that key]"
+						if c.startSeg >= 0 && c.startSeg == d.Seg {
+							// Known finding (DESIGN.md 5, D14): the scan reads the candidates of the
+							// key's hash that are stored before the start offset in the start segment
+							// (only when the damage is in one of those candidates or in the file header)
+							for _, pb := range pubs {
+								if pb.Seg == d.Seg && string(pb.Key) == c.key && (damaged[pb.Off] || d.Lo < 8) {
+									tag = " [ConsumeByKey cursor starts in the damaged segment, which holds messages of that key]"
+								}
 							}
 						}
+						fail(callKind(c.name)+" answered from other segments changed"+tag, "%s is answered entirely from other segment files (%v) but returned (%d messages, %v)", c.name, ref[i].offs, len(ms), cerr)
 					}
-					fail(callKind(c.name)+" answered from other segments changed"+tag, "%s is answered entirely from other segment files (%v) but returned (%d messages, %v)", c.name, ref[i].offs, len(ms), cerr)
 				}
 			}
-		}
-		res.Outcomes[fmt.Sprintf("opened: %d calls failed, %d succeeded", nerr, nok)]++
-		if p := safely(func() { _ = lg.Close() }); p != "" {
-			fail("panic in Close", "Close panicked: %s", p)
+			if warm {
+				res.Outcomes[fmt.Sprintf("warm handle: %d calls failed, %d succeeded", nerr, nok)]++
+			} else {
+				res.Outcomes[fmt.Sprintf("opened: %d calls failed, %d succeeded", nerr, nok)]++
+			}
+			if p := safely(func() { _ = lg.Close() }); p != "" {
+				fail("panic in Close", "Close panicked: %s", p)
+			}
 		}
 	}
 	if t.Lo < len(ds) {
